@@ -27,6 +27,8 @@ Bytes machines (regex_bytes, regex_bytes_promote) — how the statement is read,
             automaton's alphabet, so the approximation is then a different one).                   [exact]
             On any other input, or with an alternation, only the weak predicate (terminates; stored bytes == consumed prefix;
             NonTerminal <=> not terminal) is checked.                                                [weak]
+  (mode bytes-fsm: regex_bytes constructed from a greenery.fsm over exactly the expression's symbols, without
+            the anything-else symbol — no state has a wildcard edge at all; profiles ascii / mb, exact.)
   refuse    a multi-byte symbol together with a second distinct symbol: regex_bytes documents that it
             cannot encode these; the construction must raise that AssertionError (or build, then weak).
 """
@@ -43,7 +45,7 @@ from ..common import Stats
 
 PID = 'C11'
 LEVEL = 'exploration'
-RULE = ('cases = (machine class str|bytes|promote, regex AST, input, chunking). Exhaustive tier: every AST up to '
+RULE = ('cases = (machine class str|bytes|promote|bytes-fsm, regex AST, input, chunking). Exhaustive tier: every AST up to '
         'the size bound over atoms {a, b, ., [^a], [ab]} with *, +, ?, {2}, {1,2}, {2,}, cat, alt  x  every string over '
         '{a,b,c} up to the length bound, on cpppo.regex (input in one piece) and on cpppo.regex_bytes (one symbol per '
         'chunk). Random tier: Hypothesis ASTs up to 12 nodes over {a,b,c,π,€} (str) or one of the bytes '
@@ -93,14 +95,37 @@ PLAN_CACHE = 6
 
 def _classes():
     import cpppo
-    return {'str': cpppo.regex, 'bytes': cpppo.regex_bytes, 'promote': cpppo.regex_bytes_promote}
+    return {'str': cpppo.regex, 'bytes': cpppo.regex_bytes, 'promote': cpppo.regex_bytes_promote, 'bytes-fsm': cpppo.regex_bytes}
 
 
-def _build(mode, rx):
+def fsm_of(ast):
+    """The expression as a complete greenery.fsm over exactly the symbols it mentions — no anything-else
+    symbol, hence no state of the translated machine has a wildcard edge.  (Input construction for
+    from_regex's documented fsm form; the automaton is the derivative automaton of the reference.)"""
+    import greenery.fsm
+    m = R.Matcher(ast)
+    alphabet = sorted(R.symbols(ast))
+    ids = {m.start: 0}
+    todo = [m.start]
+    table = {}
+    while todo:
+        node = todo.pop()
+        row = table[ids[node]] = {}
+        for c in alphabet:
+            nxt = m.step(node, c)
+            if nxt not in ids:
+                ids[nxt] = len(ids)
+                todo.append(nxt)
+            row[c] = ids[nxt]
+    finals = set(i for node, i in ids.items() if m.nullable(node))
+    return greenery.fsm.fsm(alphabet=set(alphabet), states=set(table), initial=0, finals=finals, map=table)
+
+
+def _build(mode, rx, ast):
     """-> (machine, None) or (None, exception)"""
     cls = _classes()[mode]
     try:
-        return cls(name='c11', context=CTX, initial=rx, terminal=True), None
+        return cls(name='c11', context=CTX, initial=fsm_of(ast) if mode == 'bytes-fsm' else rx, terminal=True), None
     except AssertionError as exc:
         return None, exc
 
@@ -140,7 +165,9 @@ def plan_for(mode, ast):
         else:
             p.profile = 'mb'
             p.matcher = R.Matcher(R.lower_bytes(ast))
-    p.machine, p.refusal = _build(mode, p.rx)
+    if mode == 'bytes-fsm' and R.has_wildcard(ast):
+        raise common.HarnessError('bytes-fsm cases carry no wildcard')
+    p.machine, p.refusal = _build(mode, p.rx, ast)
     _PLANS[key] = p
     _PLAN_ORDER.append(key)
     if len(_PLAN_ORDER) > PLAN_CACHE:
@@ -236,9 +263,14 @@ def power_profile(n):
     trivial answer is (n, 1, 1).  Multipliers are combined only where the product is a contiguous range:
     {p,p+q}*{r,r+s} = {pr,(p+q)(r+s)}  iff  s = 0 or q*r + 1 >= p   (with inf*0 = 0)."""
     t = n[0]
-    if t in R.ATOMIC or t == 'alt':
+    if t in R.ATOMIC:
         return (_key(n), 1, 1)
     k, lo, hi = power_profile(n[1])
+    if t == 'alt':                               # x{3,}|x{2,} = x{2,} when the ranges touch
+        k2, lo2, hi2 = power_profile(n[2])
+        if k2 == k and (hi is None or lo2 <= hi + 1) and (hi2 is None or lo <= hi2 + 1):
+            return (k, min(lo, lo2), None if hi is None or hi2 is None else max(hi, hi2))
+        return (_key(n), 1, 1)
     if t == 'cat':
         k2, lo2, hi2 = power_profile(n[2])
         if k2 != k:
@@ -254,6 +286,30 @@ def power_profile(n):
     if not ok:
         return (_key(n[1]), r, rmax)             # the operand itself is the base
     return (k, lo * r, None if hi is None or rmax is None else hi * rmax)
+
+
+def canon_ast(n):
+    """Same language, one spelling: every atom a class, unions of classes folded (as greenery's charclass does)."""
+    t = n[0]
+    if t == 'lit':
+        return ['cls', [n[1]], False]
+    if t == 'dot':
+        return ['cls', [], True]
+    if t == 'cls':
+        return ['cls', sorted(n[1]), bool(n[2])]
+    if t in ('cat', 'alt'):
+        a, b = canon_ast(n[1]), canon_ast(n[2])
+        if t == 'alt' and a == b:
+            return a
+        if t == 'alt' and a[0] == 'cls' and b[0] == 'cls':
+            A, B = set(a[1]), set(b[1])
+            if not a[2] and not b[2]:
+                return ['cls', sorted(A | B), False]
+            if a[2] and b[2]:
+                return ['cls', sorted(A & B), True]
+            return ['cls', sorted((A - B) if a[2] else (B - A)), True]
+        return [t, a, b]
+    return [t, canon_ast(n[1])] + list(n[2:])
 
 
 def greenery_reading(ast):
@@ -294,6 +350,7 @@ def root_cause(p, ast, inp, k, o, aspect):
             return 'bytes:chain-of-3+-byte-symbol-broken-after-its-first-byte'   # that state has no edges: never waits
     if p.alt is False:
         p.alt = None
+        ast = canon_ast(ast)
         alt = greenery_reading(ast)
         if alt != ast:
             try:
@@ -327,6 +384,11 @@ def classify(case, p, inp, k, acc, last, exact):
         classes.append('shape:viable-beyond-last-accepting')
     if k == 0 and last == 0 and n > 0:
         classes.append('shape:nullable-expression-rejects-first-symbol')
+    if exact and p.enc is not None and k < n and any(k >= j and inp[k - j:k] == p.enc[:j] for j in range(1, len(p.enc))):
+        classes.append('shape:refused-byte-follows-lead-bytes-of-symbol[%s]' % (
+            'no-wildcard-in-state' if p.mode == 'bytes-fsm' else 'wildcard-dead' if p.profile == 'mb' else 'wildcard-live-or-dead'))
+    if exact and p.profile == 'mb+wild' and sibling(p.sym).encode('utf-8') in inp[:k]:
+        classes.append('shape:sibling-character-consumed-by-wildcard')
     classes.extend('expr:' + f for f in p.feats)
     if p.mode != 'str' and cuts and p.enc is not None:
         pos, inside = 0, set()
@@ -401,7 +463,7 @@ def pred_run(case, stats):
     # a disagreement must not depend on what the instance did before: re-check on a fresh instance
     # (a newly constructed one for the first disagreements of an expression, afterwards the last of those)
     if p.rechecks < 2:
-        p.fresh, err = _build(mode, p.rx)
+        p.fresh, err = _build(mode, p.rx, ast)
         if p.fresh is None:
             raise common.HarnessError('second construction of %r failed: %r' % (p.rx, err))
     p.rechecks += 1
@@ -527,6 +589,14 @@ def random_cases(draw):
         text = ''.join(walk_input(draw, m, ['a', 'b', 'c', 'π', '€'], 20))
         return {'mode': 'str', 'ast': ast, 'input': text, 'cuts': draw_cuts(draw, len(text))}
     mode = draw(st.sampled_from(['bytes', 'bytes', 'promote']))
+    if kind in ('ascii', 'mb') and draw(st.integers(0, 3)) == 0:
+        # the same machine class built from an fsm without an anything-else symbol: no wildcard edge anywhere
+        lits = ['a', 'b'] if kind == 'ascii' else [draw(st.sampled_from(MB_SYMS))]
+        ast = draw(ast_strategy(lits, False, []))
+        m = R.Matcher(R.lower_bytes(ast))
+        pool = [0x61, 0x62, 0x63, 0xCF] if kind == 'ascii' else sorted(set(lits[0].encode('utf-8') + sibling(lits[0]).encode('utf-8') + b'a'))
+        data = bytes(walk_input(draw, m, pool, 20))
+        return {'mode': 'bytes-fsm', 'ast': ast, 'input': common.hx(data), 'cuts': draw_cuts(draw, len(data))}
     if kind == 'ascii':
         ast = draw(ast_strategy(['a', 'b'], True, ['a', 'b']))
         m = R.Matcher(R.lower_bytes(ast))
